@@ -71,9 +71,12 @@ def run(prog: Program, res: Result, tier: str) -> None:
         ups = [e for e in nfa.effects if e.kind == "set" and e.target == v and e is not acc[0]]
         ok = len(ups) == 1 and ups[0].text() in {f"{o}({v}, {r})" for r in inr for o in ("np.logical_or", "BitOr")} | \
             {f"{o}({r}, {v})" for r in inr for o in ("np.logical_or", "BitOr")} and \
-            [e.text() for e in nfa.sets("self.user_mask")] == [v]
-    (res.ok if ok else res.bad)("R1", am, am.node, "user mask = union over ranges of (lo <= chan_freqs <= hi), starting from all-False" if ok else
-                                "apply_mask no longer builds the closed-range union from an all-False mask", construct="apply_mask", key="apply_mask")
+            [e.text() for e in nfa.sets("self.user_mask")] in ([f"np.logical_or(self.user_mask, {v})"], [f"np.logical_or({v}, self.user_mask)"],
+                                                               [f"BitOr(self.user_mask, {v})"], [f"BitOr({v}, self.user_mask)"])
+    (res.ok if ok else res.bad)("R1", am, am.node, "the union over ranges of (lo <= chan_freqs <= hi), built from all-False, is OR-ed into the stored user mask "
+                                "(the component only ever gains channels, like chan_mask)" if ok else
+                                "apply_mask no longer ORs the closed-range union (built from an all-False mask) into the stored user mask: a second "
+                                "application replaces the first, and chan_mask is no longer the union of its components", construct="apply_mask", key="apply_mask")
     ap = cls.methods["apply_method"]
     nfp = normal_form(ap)
     sm = nfp.sets("self.stats_mask")
@@ -84,10 +87,11 @@ def run(prog: Program, res: Result, tier: str) -> None:
             ok = False
             continue
         parts = ", ".join(f"{fnm}(self.{c}, self.threshold)" for c in ("chan_var", "chan_skew", "chan_kurt"))
-        ok = ok and e.text() in (f"np.logical_or.reduce(({parts}))", f"np.logical_or.reduce([{parts}])")
+        ok = ok and e.text() in (f"np.logical_or.reduce((self.stats_mask, {parts}))", f"np.logical_or.reduce([self.stats_mask, {parts}])",
+                                 f"np.logical_or(self.stats_mask, np.logical_or.reduce(({parts})))")
     ok = ok and any(e.under("method != 'mad'", "method != 'iqrm'") for e in nfp.raises())
-    (res.ok if ok else res.bad)("R1", ap, ap.node, "stats mask = var | skew | kurtosis outliers of the chosen method at self.threshold" if ok else
-                                "apply_method no longer ORs the variance, skewness and kurtosis masks of the chosen method", construct="apply_method", key="apply_method")
+    (res.ok if ok else res.bad)("R1", ap, ap.node, "stored stats mask |= var | skew | kurtosis outliers of the chosen method at self.threshold" if ok else
+                                "apply_method no longer ORs the variance, skewness and kurtosis masks of the chosen method into the stored stats mask", construct="apply_method", key="apply_method")
     f = prog.func(RFI, "double_mad_mask")
     nfd = normal_form(f)
     ok = [e.text() for e in nfd.returns()] == ["cmp[Lt](threshold, np.abs(stats.estimate_zscore(array, scale_method='doublemad').data))"] and \
@@ -106,6 +110,25 @@ def run(prog: Program, res: Result, tier: str) -> None:
             ups[0].text().endswith(">, scale_method='iqr').data)))") and [e.text() for e in nfq.returns()] == [v]
     (res.ok if ok else res.bad)("R1", f, f.node, "iqrm_mask: |z| > threshold (strict), threshold must be positive" if ok else
                                 "iqrm_mask: thresholding of the z-scores changed", construct="iqrm_mask", key="iqrm_mask")
+    # the strided window view of iqrm_mask walks the array it is given: its strides are that array's own (F44)
+    views = [c for c in calls_in_body(f.node) if (dotted(c.func) or "").endswith("as_strided")]
+    okv = bool(views)
+    flq = flow_of(f)
+    for c in views:
+        st_ = next((k.value for k in c.keywords if k.arg == "strides"), c.args[2] if len(c.args) > 2 else None)
+        base_ = canon(flq.expand(c.args[0], flq.cfg.node_for(c))) if c.args else "?"
+        got_ = canon(flq.expand(st_, flq.cfg.node_for(c))) if st_ is not None else "?"
+        okv = okv and got_ in (canon(f"({base_}).strides * 2"), canon(f"({base_}).strides + ({base_}).strides"), canon(f"(({base_}).strides[0], ({base_}).strides[0])"))
+    (res.ok if okv else res.bad)("R1", f, views[0] if views else f.node, "the lag window is a strided view with the strides of the padded copy it walks" if okv else
+                                 "iqrm_mask: as_strided is given strides that are not those of the array it views (a non-contiguous statistics vector then "
+                                 "gives a wrong mask and out-of-bounds reads)", construct="as_strided", key="iqrm_mask:strides")
+    # the custom component is monotone too
+    cf = cls.methods["apply_funcn"]
+    nfc_ = normal_form(cf)
+    okc = [e.text() for e in nfc_.sets("self.custom_mask")] in (["np.logical_or(self.custom_mask, custom_funcn(self.chan_mask))"],
+                                                                ["BitOr(self.custom_mask, custom_funcn(self.chan_mask))"])
+    (res.ok if okc else res.bad)("R1", cf, cf.node, "stored custom mask |= custom_funcn(chan_mask)" if okc else
+                                 "apply_funcn replaces the stored custom mask instead of OR-ing into it", construct="apply_funcn", key="apply_funcn")
     from .c15 import check_doublemad_symmetry
     scratch = Result("C15", prog)
     check_doublemad_symmetry(prog, scratch, "R5")
@@ -175,6 +198,9 @@ def run(prog: Program, res: Result, tier: str) -> None:
 
     checks = [
         ("statistics pass uses the same (gulp, start, nsamps)", [e.text() for e in nfr.calls("self.compute_stats")] == [canon(f"self.compute_stats({same_range})")]),
+        ("the statistics are computed on every call, for the range that is cleaned (statistics cached by an earlier call may be of another range, or the two-moment kind)",
+         len(built) == 1 and len(nfr.calls("self.compute_stats")) == 1 and set(nfr.calls("self.compute_stats")[0].ctx) <= set(built[0].ctx)
+         and nfr.before(nfr.calls("self.compute_stats")[0], built[0])),
         ("mask built from mean, var, skew, kurtosis, maxima, minima of this file", len(built) == 1),
         ("user mask, then statistics mask, then custom mask are applied (each optional one only when given)",
          len(um) == 1 and len(sm_) == 1 and len(cm) == 1 and um[0].text() == f"{M}.apply_mask(freq_mask)" and um[0].under("freq_mask is not None") and
@@ -243,7 +269,7 @@ def run(prog: Program, res: Result, tier: str) -> None:
     # ---- R1 (cont.) the z-scores the masks threshold (shared with C15.R1) ----------------------------------------------
     depends(res, "R1", prog, tier, "C15", accept=lambda o: (o.key or "").startswith("zscore:"),
             why="both mask methods threshold estimate_zscore(...).data: C15's rules for that function are re-evaluated here")
-    res.floor("R1", 11)
+    res.floor("R1", 13)
     res.floor("R2", 1)
     res.floor("R3", 13)
     res.floor("R4", 28)
@@ -252,16 +278,24 @@ def run(prog: Program, res: Result, tier: str) -> None:
 RF = "sigpyproc/core/rfi.py"
 B = "sigpyproc/base.py"
 MUTANTS = [
+    {"id": "c16-revert-F44", "file": "sigpyproc/core/rfi.py", "expect": "C16.R1",
+     "old": "        strides=padded.strides * 2,\n", "new": "        strides=array.strides * 2,\n"},
+    {"id": "c16-revert-F45-user", "file": "sigpyproc/core/rfi.py", "expect": "C16.R1",
+     "old": "        self.user_mask = np.logical_or(self.user_mask, user_mask)\n", "new": "        self.user_mask = user_mask\n"},
+    {"id": "c16-revert-F45-custom", "file": "sigpyproc/core/rfi.py", "expect": "C16.R1",
+     "old": "        self.custom_mask = np.logical_or(self.custom_mask, custom_funcn(self.chan_mask))\n", "new": "        self.custom_mask = custom_funcn(self.chan_mask)\n"},
+    {"id": "c16-revert-F45-stats", "file": "sigpyproc/core/rfi.py", "expect": "C16.R1",
+     "old": "            (self.stats_mask, mask_var, mask_skew, mask_kurtosis),\n", "new": "            (mask_var, mask_skew, mask_kurtosis),\n"},
     {"id": "c16-mask-replaced", "file": RF, "expect": "C16.R1",
      "old": "        self.chan_mask = np.logical_or(self.chan_mask, self.stats_mask)", "new": "        self.chan_mask = self.stats_mask"},
     {"id": "c16-mask-and", "file": RF, "expect": "C16.R1",
-     "old": "        self.chan_mask = np.logical_or(self.chan_mask, user_mask)", "new": "        self.chan_mask = np.logical_and(self.chan_mask, user_mask)"},
+     "old": "        self.chan_mask = np.logical_or(self.chan_mask, self.user_mask)", "new": "        self.chan_mask = np.logical_and(self.chan_mask, self.user_mask)"},
     {"id": "c16-custom-or-other", "file": RF, "expect": "C16.R1",
      "old": "        self.chan_mask = np.logical_or(self.chan_mask, self.custom_mask)", "new": "        self.chan_mask = np.logical_or(self.chan_mask, self.user_mask)"},
     {"id": "c16-range-open", "file": RF, "expect": "C16.R1",
      "old": "                self.header.chan_freqs <= freq_range[1],", "new": "                self.header.chan_freqs < freq_range[1],"},
     {"id": "c16-stats-drop-kurt", "file": RF, "expect": "C16.R1",
-     "old": "np.logical_or.reduce((mask_var, mask_skew, mask_kurtosis))", "new": "np.logical_or.reduce((mask_var, mask_skew))"},
+     "old": "            (self.stats_mask, mask_var, mask_skew, mask_kurtosis),\n", "new": "            (self.stats_mask, mask_var, mask_skew),\n"},
     {"id": "c16-threshold-ge", "file": RF, "expect": "C16.R1",
      "old": "    return np.abs(zscore.data) > threshold", "new": "    return np.abs(zscore.data) >= threshold"},
     {"id": "c16-kernel-neighbour", "file": "sigpyproc/core/kernels.py", "expect": "C16.R2",
@@ -269,7 +303,10 @@ MUTANTS = [
     {"id": "c16-clean-wrong-mask", "file": B, "expect": "C16.R3",
      "old": "        out_file = self.apply_channel_mask(\n            rfimask.chan_mask,", "new": "        out_file = self.apply_channel_mask(\n            rfimask.stats_mask,"},
     {"id": "c16-clean-stats-whole-file", "file": B, "expect": "C16.R3",
-     "old": "            self.compute_stats(gulp=gulp, start=start, nsamps=nsamps, **plan_kwargs)", "new": "            self.compute_stats(gulp=gulp, **plan_kwargs)"},
+     "old": "        self.compute_stats(gulp=gulp, start=start, nsamps=nsamps, **plan_kwargs)", "new": "        self.compute_stats(gulp=gulp, **plan_kwargs)"},
+    {"id": "c16-revert-F43", "file": "sigpyproc/base.py", "expect": "C16.R3",
+     "old": "        self.compute_stats(gulp=gulp, start=start, nsamps=nsamps, **plan_kwargs)\n\n        if not isinstance",
+     "new": "        if self.chan_stats is None:\n            self.compute_stats(gulp=gulp, start=start, nsamps=nsamps, **plan_kwargs)\n\n        if not isinstance"},
     {"id": "c16-mask-not-bool", "file": B, "expect": "C16.R3",
      "old": "        mask = np.array(chan_mask).astype(\"bool\")", "new": "        mask = np.array(chan_mask)"},
     {"id": "c16-revert-F20", "file": RF, "expect": "C16.R4",
